@@ -117,10 +117,10 @@ func freeRunV2(t *testing.T, cfg Config, rnd *rand.Rand, calls map[string]contra
 	if err != nil {
 		t.Fatalf("New(%+v): %v", cfg, err)
 	}
-	for p := range inputs { // the options map belongs to the caller again once New has returned: reuse it
-		delete(inputs, p)
-	}
 	var wg sync.WaitGroup
+	ownerDone := make(chan struct{})
+	defer close(ownerDone)
+	ownMap(inputs, ownerDone)
 	for _, p := range cfg.Prios {
 		wg.Add(1)
 		go func(p uint, n int, slow bool) {
@@ -193,6 +193,36 @@ recv:
 		lg.add(obs{E: "Leak", K: n, Note: "goroutines of the library remain 2s after termination"})
 	}
 	return lg.evs
+}
+
+// ownMap: the options map belongs to the caller again once New has returned. Its owner keeps using it (emptying, refilling,
+// reading) from a goroutine that never synchronises with the discipline: any access by the library is a race on user data (C20).
+func ownMap(inputs map[uint]<-chan int, done <-chan struct{}) {
+	keys := make([]uint, 0, len(inputs))
+	for p := range inputs {
+		keys = append(keys, p)
+	}
+	go func() {
+		other := make(chan int)
+		for {
+			for _, p := range keys {
+				delete(inputs, p)
+			}
+			n := len(inputs)
+			for _, p := range keys {
+				inputs[p] = other
+			}
+			for range inputs {
+				n++
+			}
+			_ = n
+			select {
+			case <-done:
+				return
+			case <-time.After(20 * time.Microsecond):
+			}
+		}
+	}()
 }
 
 // waitNoModuleGoroutines: free-running mode has no quiescence oracle, so the dump is retried with back-off for up to 2 s.
